@@ -7,6 +7,16 @@ VERIF = os.path.dirname(os.path.dirname(os.path.abspath(__file__)))
 
 # id -> (level, technique, level text, level note, design ref)
 CLAIMED = {
+    "C36": ("exploration",
+            "deterministic simulation: RequestName/ReleaseName histories against a conformant fake bus with seeded reply delays, genuine and forged ownership signals; name-status reference model",
+            "A real bus-mode connection (handshake + Hello) runs histories of request/release interleaved with bus-side events (another connection owning, releasing, taking over names; forged NameAcquired/NameLost from a peer). After each step the observable behaviour (local AlreadyOwner/InQueue answers without bus traffic vs. exactly one RequestName on the bus; release true iff held or queued) must equal the {none, owner, queued} model.",
+            "One operation at a time with quiescence in between; the fake bus follows the specification's name-queue rules.",
+            "DESIGN.md §3 C36"),
+    "C37": ("exploration",
+            "deterministic simulation: stream / proxy / signal-stream create-drop histories (concurrent pairs) against a fake bus that records AddMatch / RemoveMatch",
+            "Batches of one or two concurrent operations create and drop MessageStreams over overlapping rules, proxies and proxy signal streams (sync and async drops). After every batch the rules registered on the fake bus must equal the distinct signal rules with a live subscriber, each exactly once, with no duplicate AddMatch and no RemoveMatch of an unregistered rule.",
+            "Expected rule strings are produced with zbus's own MatchRule formatter (string identity is all that matters here).",
+            "DESIGN.md §3 C37"),
     "C39": ("exploration",
             "deterministic simulation: seeded sets of connection handles dropped in seeded orders (with graceful_shutdown) while slow handlers are in flight; peer-observed EOF compared with handle lifetime",
             "Side A holds clones, streams, proxies (with and without a property-cache task), a signal stream and an InterfaceRef plus in-flight handlers sleeping on the simulated clock; the director drops them in a seeded order with a seeded number of scheduler steps in between. The raw peer must see EOF by quiescence iff every handle is gone, never earlier, after the replies of all started handlers; graceful_shutdown must complete iff everything else is gone and write nothing afterwards.",
